@@ -81,10 +81,29 @@ where
     cfg.min_log_n = 5;
     cfg.max_log_n = if X::is_rescue() { 8 } else if tier == Tier::Thorough { 12 } else { 11 };
     cfg.max_width = 10;
+    // wide and short traces: many row-matrix segments over few rows (batching by rows vs by elements)
+    let wide_short = !X::is_rescue() && s.chance(1, 6);
+    if wide_short {
+        cfg.min_log_n = 3;
+        cfg.max_log_n = 5;
+        cfg.min_width = 57;
+        cfg.max_width = 130;
+        cfg.allow_aux = false;
+        cfg.max_degree = 2;
+    }
     let Instance { spec, main, .. } = gen_instance::<X::S>(s, &cfg, &mut rec);
-    let max_lde = if X::is_rescue() { 1 << 11 } else { 1 << 15 };
+    let max_lde = if wide_short { 1 << 7 } else if X::is_rescue() { 1 << 11 } else { 1 << 15 };
     let mut opt = gen_options(s, spec.trace_len, spec.min_blowup(), max_lde, <X::S as FSpec>::CUBE.is_some(), &mut rec);
     opt.grinding = if s.bool() { 0 } else { 8 };
+    if wide_short {
+        // 128 LDE rows: more row-matrix segments than a large thread pool leaves rows per batch
+        opt.blowup = (128 / spec.trace_len).max(spec.min_blowup());
+        if vgen::options::fri_truncates(spec.trace_len, opt.blowup, opt.folding, opt.rem_degree) {
+            opt.folding = 2;
+            opt.rem_degree = 0;
+        }
+        opt.queries = opt.queries.min(spec.trace_len * opt.blowup - 1);
+    }
     let options = opt.build();
     let spec = Arc::new(spec);
     let lde = spec.trace_len * opt.blowup;
@@ -433,7 +452,7 @@ fn main() {
     let c06 = Prop {
         id: "C06",
         level: "exploration",
-        rule: "case = one generated input of a family (proof: GenAir instance + options with LDE sizes 2^7..2^15 around the 1024 and 8192 thresholds, grinding 0 or 8; fft: sizes 256..2^14; batch: lengths around 1024, 8*1024, 16*1024; merkle: 512..2^13 leaves; matrix: 1..120 columns; tables: fragments of every length) x one build variant (async; concurrent with RAYON_NUM_THREADS in {1,2,3,4,5,7,8,12,16,33,128}, thorough: 1..16 and {24,33,64,100,128,300} twice). The same case list is regenerated in every build from the same proptest strategy and ChaCha seed. Oracle: digests of the outputs equal the serial build's: for proofs the context, commitments and OOD frame always, the whole proof whenever the nonce is equal, and every proof verifies; for the other families every output. Non-trivial = some parallel path is active (proof LDE >= 1024; all other families are sized to cross their thresholds); distinct = (case, variant).",
+        rule: "case = one generated input of a family (proof: GenAir instance + options with LDE sizes 2^7..2^15 around the 1024 and 8192 thresholds, grinding 0 or 8, one case in six wide and short: up to 130 columns over 8..32 rows; fft: sizes 256..2^14; batch: lengths around 1024, 8*1024, 16*1024; merkle: 512..2^13 leaves; matrix: 1..120 columns; tables: fragments of every length) x one build variant (async; concurrent with RAYON_NUM_THREADS in {1,2,3,4,5,7,8,12,16,33,128}, thorough: 1..16 and {24,33,64,100,128,300} twice). The same case list is regenerated in every build from the same proptest strategy and ChaCha seed. Oracle: digests of the outputs equal the serial build's: for proofs the context, commitments and OOD frame always, the whole proof whenever the nonce is equal, and every proof verifies; for the other families every output. Non-trivial = some parallel path is active (proof LDE >= 1024; all other families are sized to cross their thresholds); distinct = (case, variant).",
         assumptions: vec![
             "thread schedules are explored by thread count, repeated runs and data sizes around the chunking thresholds; an interleaving-dependent race that does not depend on the partitioning would need a schedule-owning tool and is out of reach of this family (DESIGN.md section 7)",
             "the async variant is driven by a block_on with a no-op waker: the prover never actually suspends",
